@@ -310,8 +310,15 @@ pub fn gen_request(g: &mut G, max_body: usize) -> ReqPlan {
             // a field the library has its own opinion about: the caller's value stays, except that a
             // multipart body announces its own type (and boundary)
             6 => {
-                g.probe("caller-sets-content-type");
-                "Content-Type".to_string()
+                if g.chance(1, 2) {
+                    g.probe("caller-sets-content-type");
+                    "Content-Type".to_string()
+                } else {
+                    // an Authorization field of the caller's own: an authentication helper called afterwards
+                    // replaces it (the plan applies headers first, then the helper)
+                    g.probe("caller-sets-authorization");
+                    "Authorization".to_string()
+                }
             }
             0 => "X-Custom".to_string(),
             1 => "x-custom".to_string(),
@@ -336,6 +343,10 @@ pub fn gen_request(g: &mut G, max_body: usize) -> ReqPlan {
                 _ => *g.pick(&["evil.test", "evil.test:81"]),
             };
             headers.push((name, v.as_bytes().to_vec(), g.chance(1, 4)));
+            continue;
+        }
+        if name == "Authorization" {
+            headers.push((name, b"Custom stale-credentials".to_vec(), false));
             continue;
         }
         if name == "Content-Type" {
@@ -649,6 +660,10 @@ pub fn check_request_ex(
         // checked by check_multipart: the form's own type and boundary replace the caller's
         model.retain(|(k, _)| k != "content-type");
     }
+    if !matches!(plan.auth, Auth::None) {
+        // replaced by the helper, judged by the credential check below
+        model.retain(|(k, _)| k != "authorization");
+    }
     // judged by the framing / Host / Connection rules below, not as caller fields
     model.retain(|(k, _)| !["content-length", "transfer-encoding", "connection", "host"].contains(&k.as_str()));
     let mut names: Vec<String> = model.iter().map(|(k, _)| k.clone()).collect();
@@ -662,6 +677,9 @@ pub fn check_request_ex(
         if want != got {
             return fail("caller-header-lost", format!("header {:?}: caller set {:?}, wire has {:?}", n, want.iter().map(|v| short(v)).collect::<Vec<_>>(), got.iter().map(|v| short(v)).collect::<Vec<_>>()));
         }
+    }
+    if !matches!(plan.auth, Auth::None) && r.header_all("authorization").len() != 1 {
+        return fail("auth-mismatch", format!("{} Authorization fields on the wire after an authentication helper", r.header_all("authorization").len()));
     }
     match &plan.auth {
         Auth::None => {}
